@@ -171,6 +171,9 @@ type c06Case struct {
 	// the client then runs without the harness's 64 KiB read limit (the bodies
 	// of these cases are small).
 	CLen string `json:"clen,omitempty"`
+	// Limit: the client's read limit (0 = the harness's 64 KiB guard); with
+	// Body "page" the peer sends a non-Connect error page larger than it.
+	Limit int `json:"limit,omitempty"`
 }
 
 func (k c06Case) key() string {
@@ -187,6 +190,9 @@ func (k c06Case) key() string {
 	}
 	if k.CLen != "" {
 		body += "/content-length=" + k.CLen
+	}
+	if k.Limit > 0 {
+		body += fmt.Sprintf("/limit=%d", k.Limit)
 	}
 	return fmt.Sprintf("%s/%s/%s/st%d/ct=%s/enc=%s/hs=%s/ts=%s/msg=%q/det=%s/body=%s", k.Proto, k.Kind, codec, k.Status, k.CT, k.Enc, k.HStatus, k.TStatus, k.Msg, k.Details, body)
 }
@@ -214,7 +220,10 @@ var c06BodyMenu = c06Bodies()
 func c06Check(c *ev.Collector, k c06Case) {
 	tags := []string{"proto=" + k.Proto.String(), "kind=" + k.Kind.String()}
 	var body []byte
-	if k.Body == "raw" {
+	if k.Body == "page" {
+		body = []byte("<html><body><h1>Service temporarily unavailable</h1><p>" + strings.Repeat("please try again later. ", 20) + "</p></body></html>")
+		tags = append(tags, "body=page")
+	} else if k.Body == "raw" {
 		body = k.Raw
 		tags = append(tags, "body=raw")
 	} else {
@@ -294,6 +303,9 @@ func c06Check(c *ev.Collector, k c06Case) {
 	cl := NewClient(tr, cfg, connect.WithReadMaxBytes(1<<16))
 	if k.CLen != "" {
 		cl = NewClient(tr, cfg)
+	}
+	if k.Limit > 0 {
+		cl = NewClient(tr, cfg, connect.WithReadMaxBytes(k.Limit))
 	}
 	var res CallResult
 	g := Guarded(func() { res = RunCall(context.Background(), cl, k.Kind, [][]byte{{1}}, nil) }, tr)
@@ -492,6 +504,22 @@ func TestC06(t *testing.T) {
 						c.Case(k.key(), true)
 						Bubble(t, func() { c06Check(c, k) })
 					}
+				}
+			}
+		}
+	}
+	// a proxy's error page larger than the client's read limit: the code still comes from the status
+	for _, p := range AllProtos {
+		for _, kind := range []Kind{KUnary, KServer} {
+			for _, st := range []int{401, 403, 429, 503} {
+				for _, lim := range []int{16, 64, 600} {
+					idx++
+					if !ev.Mine(idx) {
+						continue
+					}
+					k := c06Case{Proto: p, Kind: kind, Status: st, CT: "text/html", Enc: "-", HStatus: "-", TStatus: "-", Msg: "-", Details: "-", Body: "page", Dev: 2, Limit: lim}
+					c.Case(k.key(), true)
+					Bubble(t, func() { c06Check(c, k) })
 				}
 			}
 		}
